@@ -12,20 +12,22 @@ EXTENDS Hypergeom, TLC, Json, FiniteSets, FiniteSetsExt, SequencesExt
 
 CONSTANTS Ns,        \* population sizes explored exhaustively
           BigNs,     \* population sizes explored on selected profiles only
-          BigSamples \* sample sizes used with BigNs
+          BigSamples, \* sample sizes used with BigNs
+          HugeNs      \* population sizes (up to 9999) explored on the two extreme tails only, sample = N / 2
 
 VARIABLE job         \* <<N, n, K>>; K = 0: not yet split (no work); N = 0: root
 
 Min2(a, b) == IF a < b THEN a ELSE b
 Max2(a, b) == IF a > b THEN a ELSE b
 
-Jobs == {<<N, n>> \in Ns \X (1..12) : n <= N} \cup {j \in BigNs \X BigSamples : j[2] <= j[1]}
+Jobs == {<<N, n>> \in Ns \X (1..12) : n <= N} \cup {j \in BigNs \X BigSamples : j[2] <= j[1]} \cup {<<N, N \div 2>> : N \in HugeNs}
 
 (* profiles: all (K, k) for small N; a spread of K and the extreme / middle k for large N *)
-Ks(N) == IF N \in Ns THEN 1..N ELSE {1, N \div 8, N \div 2, N - 1}
+Ks(N) == IF N \in Ns THEN 1..N ELSE IF N \in HugeNs THEN {N \div 2, N \div 8} ELSE {1, N \div 8, N \div 2, N - 1}
 ks(N, K, n) ==
   LET lo == Max2(0, n + K - N) hi == Min2(K, n) IN
   IF N \in Ns THEN lo..hi
+  ELSE IF N \in HugeNs THEN {lo, lo + 1, hi}
   ELSE {lo, hi, Min2(hi, Max2(lo, (n * K) \div N + 1)), Min2(hi, Max2(lo, (n * K) \div N + 4))}
 
 (* a three level tree (root, (N,n), (N,n,K)) so that the expensive leaves   *)
@@ -43,16 +45,29 @@ Entry(S, N, n, K, k) ==
     pnum |-> TailFrom(S, N, K, n, k), pden |-> TailDen(N, n),
     fold |-> <<k * N, n * K>> ]
 
-Line ==
+(* huge populations: everything is computed ONCE per leaf (LET values are cached by TLC) *)
+HugeLine ==
   LET N == job[1] n == job[2] K == job[3]
-      S == Suffix(N, K, n)
-  IN [ N |-> N, n |-> n, anns |-> SetToSeq({Entry(S, N, n, K, k) : k \in ks(N, K, n)}) ]
+      lo == Max2(0, n + K - N) hi == Min2(K, n)
+      den == TailDen(N, n)
+      top == TailTop(N, K, n)
+      abv == TailAboveLo(N, K, n)
+      E(k, num) == [ K |-> K, k |-> k, pnum |-> num, pden |-> den, fold |-> <<k * N, n * K>> ]
+  IN [ N |-> N, n |-> n, anns |-> <<E(lo, den), E(lo + 1, abv), E(hi, top)>>,
+       sane |-> Cmp(top, abv) <= 0 /\ Cmp(abv, den) <= 0 /\ IsNat(abv) /\ IsNat(top) ]
+
+Line ==
+  LET N == job[1] n == job[2] K == job[3] IN
+  IF N \in HugeNs
+    THEN HugeLine
+    ELSE LET S == Suffix(N, K, n) IN
+         [ N |-> N, n |-> n, anns |-> SetToSeq({Entry(S, N, n, K, k) : k \in ks(N, K, n)}) ]
 
 SelfCheck ==
   LET N == job[1] n == job[2] K == job[3]
       S == Suffix(N, K, n)
   IN
-  Leaf =>
+  (Leaf /\ N \notin HugeNs) =>
   /\ S[Len(S)] = TailDen(N, n)                                 \* Vandermonde
   /\ \A j \in 1..(Len(S) - 1) : Cmp(S[j], S[j + 1]) <= 0        \* antitone in k
   /\ \A j \in 1..Len(S) : IsNat(S[j])
@@ -60,5 +75,7 @@ SelfCheck ==
         /\ TailFrom(S, N, K, n, k) = TailNum(N, K, n, k)
         /\ TailAntitone(N, K, n, k) /\ TailBounded(N, K, n, k)
 
-Emit == Leaf => PrintT(<<"REPLAY", ToJson(Line)>>)
+Emit == Leaf => LET ln == Line IN
+                  /\ (job[1] \in HugeNs => ln.sane)
+                  /\ PrintT(<<"REPLAY", ToJson(ln)>>)
 =============================================================================
